@@ -48,15 +48,29 @@ func TestVerifC09Kill(t *testing.T) {
 	}
 	nHist := env.Pick(2, 4)
 	for hi := 0; hi < nHist; hi++ {
-		// every shard builds the same history (same PRNG stream) and judges its share of positions
+		// One history is built by the group of shards {s : s % nHist == hi}; the kill positions of
+		// that history are dealt round-robin inside the group (every real process costs seconds on
+		// a loaded machine, so no shard builds a history it does not need).
+		rank, group := 0, 1
+		if env.Shards >= nHist {
+			if env.Shard%nHist != hi {
+				continue
+			}
+			rank = env.Shard / nHist
+			group = (env.Shards - hi + nHist - 1) / nHist
+		} else if hi%env.Shards != env.Shard {
+			continue
+		}
 		rng := rec.RNG("killhist", hi)
 		base, err := c09kBuild(t, rec, hi, rng)
 		if err != nil {
 			rec.Violation("process-history-setup", err.Error(), map[string]any{"history": hi})
 			continue
 		}
-		rec.Count("process_histories", 1)
-		rec.Count("process_journal_mutations", int64(base.muts))
+		if rank == 0 {
+			rec.Count("process_histories", 1)
+			rec.Count("process_journal_mutations", int64(base.muts))
+		}
 		type job struct {
 			n     int
 			phase string
@@ -72,22 +86,21 @@ func TestVerifC09Kill(t *testing.T) {
 				jobs = append(jobs, job{n, "", true})
 			}
 		}
-		for _, j := range jobs {
-			// ownership by (history, position, kind), independent of the journal length seen by
-			// other shards
-			kind := 0
-			if j.phase == "after" {
-				kind = 1
-			} else if j.fail {
-				kind = 2
-			}
-			pos := hi*131 + j.n*3 + kind
-			if !env.Mine(pos) {
+		for k, j := range jobs {
+			if k%group != rank {
 				continue
 			}
-			c09kOne(t, rec, base, j.n, j.phase, j.fail, pos)
+			c09kOne(t, rec, base, j.n, j.phase, j.fail, k)
 		}
 		_ = os.RemoveAll(base.dir)
+	}
+}
+
+func init() {
+	// the real binary sizes its worker pools and zstd encoder pools by GOMAXPROCS; two threads
+	// keep the start-up cost of the hundreds of child processes low (inherited via os.Environ)
+	if os.Getenv("VERIF_RESTIC_BIN") != "" {
+		_ = os.Setenv("GOMAXPROCS", "2")
 	}
 }
 
@@ -296,7 +309,10 @@ func c09kOne(t *testing.T, rec *kit.Rec, b *c09kBase, n int, phase string, fail 
 		rec.Violation("process-"+mode, fmt.Sprintf("history %d, %s at mutation %d/%d of `%s`: %s", b.c.Idx, mode, n, b.muts, strings.Join(b.pruneArg, " "), strings.Join(probs, " | ")), cc)
 	}
 	rec.Case(fmt.Sprintf("proc/%d/%s/%d", b.c.Idx, mode, n), fail || r.Killed)
-	// prune again, judge again
+	// prune again, judge again (every second job: each step is a real process)
+	if pos%2 == 1 {
+		return
+	}
 	r2, _ := p.Run(work, nil, "prune", "--pack-size", "4")
 	if r2.Exit != 0 {
 		rec.Count("process_rerun_prune_failed", 1)
